@@ -7,3 +7,11 @@ claim('C17', 'proof',
       'Abstract interpretation of clear_h and its addition chains proves result = [h_eff]P for every curve point, h_eff exactly the RFC 9380 constants; arithmetic on constants (curve orders from the BLS parameter, End(E)-module structure of E(Fq)) shows the image has order dividing r.',
       'Trusted: rustc MIR; double/add_assign/sub_assign are the group law (C01); structure theorem for E(Fq) with j=0.',
       'abstract interpretation (linear-form domain) over MIR with counted loops; arithmetic on constants', 'DESIGN.md 4.4, 5 C17')
+claim('C14', 'other',
+      'Typestate (curve tag E\'/E/Sub) + stage-word dataflow over the generic MapToCurve bodies instantiated at G1 and G2, with the set of target-curve-only functions computed from the resolved call graph: decides the composition clause (each input through sswu, iso, clear exactly once; sum on the target curve; includes u0 = u1 and u0 = -u1 because the law used is the complete one on E) and the panic-edge clause. Stage internals are C15-C17.',
+      'Trusted: stage functions meet their contracts; isogeny and [h_eff] are homomorphisms; target-curve group law complete (C01). Decides composition, not numeric output.',
+      'typestate / dataflow over MIR + call-graph reachability', 'DESIGN.md 4.5, 5 C14, 6')
+claim('C09', 'other',
+      'Partial: SHAPE rules decide the linear part of the tower exactly (component-wise add/sub/double/negate/is_zero/zero/one, conjugate, v-rotation, Frobenius recursion + table indexing) and CONST decides all 26 Frobenius coefficients; inverse() fails only via the subfield inverse. Multiplication/squaring/inversion/sparse-product formulas are not decided (ring identities over runtime values: not in reach of static analysis).',
+      'Necessary structural conditions + complete table conformance; formulas left to tests/other families.',
+      'structural MIR rules (component-wise lifting, table-index conformance), constant-table arithmetic', 'DESIGN.md 4.7, 5 C09')
